@@ -385,6 +385,24 @@ let c05 (w : string list) : string =
      | [] -> failwith "c05: no outs")
   | _ -> failwith "c05: bad command"
 
+(* ---- C10: specification-side PAR 1.0 validator (Model/Par1Spec.v) on the files PAR1 Create wrote ---- *)
+let c10 (w : string list) : string =
+  match w with
+  | "valid" :: nvol :: nin :: rest ->
+    let nin = int_of_string nin in
+    let rec take k w acc = if k = 0 then (List.rev acc, w) else
+      match w with a :: b :: r -> take (k-1) r ((a, b) :: acc) | _ -> failwith "c10: short" in
+    let (ins, rest) = take nin rest [] in
+    let names = List.map (fun (n, _) -> bytes_of_string (unhex n)) ins in
+    let datas = List.map (fun (_, d) -> bytes_of_string (unhex d)) ins in
+    (match rest with
+     | nout :: rest ->
+       let outs = List.filteri (fun i _ -> i < int_of_string nout) rest in
+       let outs = List.map (fun c -> bytes_of_string (unhex c)) outs in
+       if valid_par1_set md5_fn names datas (nat_of_int (int_of_string nvol)) outs then "valid" else "INVALID"
+     | [] -> failwith "c10: no outs")
+  | _ -> failwith "c10: bad command"
+
 let p1 (w : string list) : string =
   match w with
   | "create" :: mode :: par :: nvol :: nf :: rest ->
@@ -453,6 +471,7 @@ let dispatch (line : string) : string =
   | "c15" :: w -> c15 w
   | "cli" :: w -> cli w
   | "c05" :: w -> c05 w
+  | "c10" :: w -> c10 w
   | _ -> failwith ("bad line: " ^ line)
 
 let () =
